@@ -122,6 +122,63 @@ Proof.
   - apply IH; try assumption; try discriminate.
 Qed.
 
+
+(* ================= the repaired line splitter of getblock ================= *)
+Lemma last_app_ne (a b : list N) d : b <> [] -> last (a ++ b) d = last b d.
+Proof.
+  intros H. induction a as [|y a IH]; [reflexivity|]. simpl app.
+  destruct (a ++ b) eqn:E; [apply app_eq_nil in E as [_ E]; congruence|].
+  rewrite <- IH. reflexivity.
+Qed.
+
+Lemma last_char_app_nonempty a b : b <> [] -> last_char (a ++ b) = last_char b.
+Proof.
+  intros H. unfold last_char. destruct b as [|x b]; [congruence|].
+  destruct (a ++ x :: b) eqn:E; [apply app_eq_nil in E as [_ E]; discriminate|].
+  rewrite <- E. f_equal. now apply last_app_ne.
+Qed.
+
+Lemma no_break_endswith l : no_break l -> endswith_lf l = false.
+Proof.
+  intros H. unfold endswith_lf. destruct (last_char l) as [c|] eqn:E; [|reflexivity].
+  apply last_char_some in E. rewrite E in H. apply no_break_app in H as [_ H].
+  apply no_break_cons in H as [H _]. apply N.eqb_neq. intros ->. discriminate.
+Qed.
+
+Lemma join_cons2 l l2 r : join [10] (l :: l2 :: r) = l ++ 10 :: join [10] (l2 :: r).
+Proof. reflexivity. Qed.
+
+Lemma join_nil_iff l r : join [10] (l :: r) = [] -> l = [] /\ r = [].
+Proof.
+  destruct r as [|l2 r]; simpl.
+  - auto.
+  - intros H. apply app_eq_nil in H as [_ H]. discriminate.
+Qed.
+
+(* joining break-free lines and splitting with the repaired splitter gives the
+   lines back; the one exception is a text consisting of a single blank line *)
+Theorem body_lines_join ls :
+  Forall no_break ls -> ls <> [[]] ->
+  splitlines (join [10] ls) ++ (if endswith_lf (join [10] ls) then [[]] else []) = ls.
+Proof.
+  unfold splitlines. destruct ls as [|l ls]; [reflexivity|]. revert l.
+  induction ls as [|l2 r IH]; intros l H NE.
+  - inversion H as [|? ? Hl _]; subst. simpl join. rewrite splitlines_aux_last by exact Hl.
+    rewrite (no_break_endswith l Hl). destruct l; [exfalso; apply NE; reflexivity | reflexivity].
+  - inversion H as [|? ? Hl Hr]; subst. rewrite join_cons2.
+    rewrite splitlines_aux_line by exact Hl. change (rev [] ++ l) with l.
+    destruct (join [10] (l2 :: r)) as [|j js] eqn:J.
+    + apply join_nil_iff in J as [-> ->]. rewrite splitlines_aux_nil.
+      assert (E : endswith_lf (l ++ [10]) = true).
+      { unfold endswith_lf. rewrite last_char_app. reflexivity. }
+      rewrite E. reflexivity.
+    + assert (E : endswith_lf (l ++ 10 :: j :: js) = endswith_lf (j :: js)).
+      { unfold endswith_lf. change (l ++ 10 :: j :: js) with (l ++ [10] ++ (j :: js)).
+        rewrite app_assoc, last_char_app_nonempty by discriminate. reflexivity. }
+      rewrite E, <- J. rewrite <- app_comm_cons. f_equal. apply IH; [exact Hr|].
+      intros Q. inversion Q; subst. discriminate.
+Qed.
+
 (* ================= sidecar files ================= *)
 Lemma lines_keepends_aux_concat cur s : concat (lines_keepends_aux cur s) = rev cur ++ s.
 Proof.
@@ -172,21 +229,24 @@ Qed.
 
 (* ================= blocks ================= *)
 Section Blocks.
+  Variable keep : bool.
   Variable admin : str.
   Variable srvname : str.
   Variable srvport : Z.
   Variable moddate : N -> str.
 
-  Notation getblock := (getblock admin srvname srvport moddate).
-  Notation getallblocks := (getallblocks admin srvname srvport moddate).
-  Notation render_info := (render_info admin srvname srvport moddate).
+  Notation getblock := (getblock keep admin srvname srvport moddate).
+  Notation getallblocks := (getallblocks keep admin srvname srvport moddate).
+  Notation render_info := (render_info keep admin srvname srvport moddate).
+  Notation ea_block_lines := (ea_block_lines keep).
+  Notation ea_block := (ea_block keep).
   Notation info_block := (info_block srvname srvport).
   Notation admin_lines := (admin_lines admin moddate).
 
   (* ---- the extended-attribute block, as lines ---- *)
   Lemma ea_block_unlines name v : ea_block name v = unlines_crlf (ea_block_lines name v).
   Proof.
-    unfold ea_block, ea_block_lines, unlines_crlf. cbn [map concat]. rewrite map_map.
+    unfold GopherPlus.ea_block, GopherPlus.ea_block_lines, unlines_crlf. cbn [map concat]. rewrite map_map.
     cbn [app]. f_equal. rewrite <- !app_assoc. reflexivity.
   Qed.
 
@@ -197,8 +257,11 @@ Section Blocks.
     In l (tl (ea_block_lines name v)) ->
     exists x, l = SP :: x /\ no_break x /\ no_lf l /\ parse_header l = None.
   Proof.
-    unfold ea_block_lines. cbn [tl]. intros H. apply in_map_iff in H as (x & <- & Hx).
-    pose proof (splitlines_no_break v) as F. rewrite Forall_forall in F. specialize (F x Hx).
+    unfold GopherPlus.ea_block_lines. cbn [tl]. intros H. apply in_map_iff in H as (x & <- & Hx).
+    assert (F : no_break x).
+    { unfold ea_body_lines in Hx. apply in_app_or in Hx as [Hx|Hx].
+      - pose proof (splitlines_no_break v) as F. rewrite Forall_forall in F. exact (F x Hx).
+      - destruct (keep && endswith_lf v); [destruct Hx as [<-|[]]; reflexivity | destruct Hx]. }
     exists x. split; [reflexivity|]. split; [exact F|]. split.
     - apply no_lf_cons. split; [discriminate | now apply no_break_no_lf].
     - reflexivity.
@@ -367,15 +430,15 @@ Section Blocks.
     [mkBlock (lit "INFO") p [];
      mkBlock (lit "ADMIN") [] (map (fun l => tl l) (tl (admin_lines e)))] ++
     (if truthy_str (e_mimetype e) then [mkBlock (lit "VIEWS") [] [tl (views_line e)]] else []) ++
-    map (fun kv => mkBlock (fst kv) [] (splitlines (snd kv))) (e_ea e).
+    map (fun kv => mkBlock (fst kv) [] (ea_body_lines keep (snd kv))) (e_ea e).
 
   Lemma parse_ea_lines ea :
     Forall (fun kv => ea_key_ok (fst kv)) ea ->
     parse_lines (flat_map (fun kv => ea_block_lines (fst kv) (snd kv)) ea) =
-    Some ([], map (fun kv => mkBlock (fst kv) [] (splitlines (snd kv))) ea).
+    Some ([], map (fun kv => mkBlock (fst kv) [] (ea_body_lines keep (snd kv))) ea).
   Proof.
     induction ea as [|[k v] ea IH]; intros F; [reflexivity|].
-    inversion F as [|? ? Hk F']; subst. cbn [flat_map map fst snd]. unfold ea_block_lines at 1.
+    inversion F as [|? ? Hk F']; subst. cbn [flat_map map fst snd]. unfold GopherPlus.ea_block_lines at 1.
     cbn [app]. apply parse_lines_block; [|now apply IH].
     unfold parse_header. change (PLUSC =? PLUSC) with true. cbn iota.
     destruct Hk as (_ & C & _). rewrite split_once_nosep by exact C. reflexivity.
@@ -431,7 +494,7 @@ Section Blocks.
       unfold no_lf. now apply print_dec_no.
     - pose proof (wf_keys e W) as K. induction (e_ea e) as [|[k v] ea IH]; [constructor|].
       inversion K as [|? ? Hk K']; subst. cbn [flat_map fst snd]. apply Forall_app. split; [|now apply IH].
-      unfold ea_block_lines. constructor.
+      unfold GopherPlus.ea_block_lines. constructor.
       + apply no_lf_cons. split; [discriminate|]. destruct Hk as (_ & _ & NL & _).
         apply no_lf_lit_app; [exact NL | reflexivity].
       + apply Forall_forall. intros l Hl.
@@ -473,7 +536,7 @@ Section Blocks.
 
   Theorem info_response_blocks e p :
     wf_entry e -> gopher0_payload srvname srvport e = Some p -> no_lf p ->
-    exists text, gplus_info admin srvname srvport moddate e = Some (lit "+-2" ++ crlf ++ text) /\
+    exists text, gplus_info keep admin srvname srvport moddate e = Some (lit "+-2" ++ crlf ++ text) /\
                  parse_blocks text = Some (expected_blocks p (menu_adjust e)).
   Proof.
     intros W P Hp.
@@ -485,26 +548,42 @@ Section Blocks.
 End Blocks.
 
 (* ---- sidecar lines ---- *)
+(* repaired getblock: every printable sidecar, except one consisting of a single blank line *)
 Theorem sidecar_block_lines name content :
   N.of_nat (List.length content) <= EA_HINT ->
   let ls := map rstrip (lines_keepends (translate_newlines content)) in
-  Forall no_break ls -> last ls [SP] <> [] ->
-  ea_block_lines name (ea_value content) = (PLUSC :: name ++ [COLON]) :: map (fun x => SP :: x) ls.
+  Forall no_break ls -> ls <> [[]] ->
+  ea_block_lines true name (ea_value content) = (PLUSC :: name ++ [COLON]) :: map (fun x => SP :: x) ls.
 Proof.
-  intros H ls F L. unfold ea_block_lines, ea_value. rewrite (ea_lines_all content H).
-  fold ls. now rewrite splitlines_join.
+  intros H ls F L. unfold ea_block_lines, ea_body_lines, ea_value. rewrite (ea_lines_all content H).
+  fold ls. cbn [andb]. now rewrite body_lines_join.
 Qed.
 
-(* a sidecar whose last line is blank loses exactly that line *)
+(* pinned getblock: only when the last line is not blank *)
+Theorem sidecar_block_lines_pinned name content :
+  N.of_nat (List.length content) <= EA_HINT ->
+  let ls := map rstrip (lines_keepends (translate_newlines content)) in
+  Forall no_break ls -> last ls [SP] <> [] ->
+  ea_block_lines false name (ea_value content) = (PLUSC :: name ++ [COLON]) :: map (fun x => SP :: x) ls.
+Proof.
+  intros H ls F L. unfold ea_block_lines, ea_body_lines, ea_value. rewrite (ea_lines_all content H).
+  fold ls. cbn [andb]. now rewrite app_nil_r, splitlines_join.
+Qed.
+
+(* a sidecar whose last line is blank loses exactly that line in the pinned code *)
 Theorem sidecar_trailing_blank_refuted :
   exists content,
     let ls := map rstrip (lines_keepends (translate_newlines content)) in
-    Forall no_break ls /\ splitlines (ea_value content) <> ls.
+    Forall no_break ls /\ ea_body_lines false (ea_value content) <> ls /\
+    ea_body_lines true (ea_value content) = ls.
 Proof.
-  exists [97; 10; 10]. split.
-  - repeat constructor.
-  - vm_compute. discriminate.
+  exists [97; 10; 10]. split; [repeat constructor|]. split; [vm_compute; discriminate | vm_compute; reflexivity].
 Qed.
+
+(* what neither variant can show: the text of a one-blank-line file is empty *)
+Theorem sidecar_single_blank_line_lost :
+  ea_value [10] = [] /\ forall keep, ea_body_lines keep (ea_value [10]) = [].
+Proof. split; [reflexivity | intros []; reflexivity]. Qed.
 
 (* the "+" / "$" length line: the exact length, or the unknown-length marker *)
 Theorem size_line_cases e :
